@@ -614,6 +614,7 @@ package stack
 //@   update after-store count.ids#1: owner[rangeindex] := c; pos[rangeindex] := len(c.ids) - 1; src[c][len(c.ids) - 1] := rangeindex
 //@   update after-store count.first#1: fsrc[c] := routine.First ? rangeindex : fsrc[c]
 //@   update after-mapupdate#1: keyOf[c] := newKey
+//@   assert after-store count.ids#1: [matchedKeyIsUnique C06 uses=sigSimSymmetric+sigSimTransitive needs=keysDissimilar+countsOK+sigSimilarIsSpec] forall k2 *Signature :: dom(b, k2) && SimSig(k2, &routine.Signature, similar) ==> k2 == key
 //@   assert after-call merge#1: [keyIsKeyOfC C05 needs=countsOK] counts[c] && keyOf[c] == key && live(key)
 //@   assert after-call merge#1: [othersDissimilarToKey C05 needs=countsOK+keysDissimilar+keyIsKeyOfC] forall c2 *count :: counts[c2] && c2 != c ==> !SimSig(key, keyOf[c2], similar) && !SimSig(keyOf[c2], key, similar) && live(keyOf[c2])
 //@   assert after-call merge#1: [stillDissimilar C05 needs=keysDissimilar] KeysDissimilar(similar, counts, keyOf)
@@ -637,7 +638,6 @@ package stack
 //@   at-return [everySlotIsOneGoroutine C04 needs=bucketsOK+finalBase+permutation+permutationInverse] forall i, p :: 0 <= i && i < len(result.Buckets) && 0 <= p && p < len(result.Buckets[i].IDs) ==> 0 <= src[cof[i]][p] && src[cof[i]][p] < len(s.Goroutines) && owner[src[cof[i]][p]] == cof[i] && pos[src[cof[i]][p]] == p && bidx[cof[i]] == i
 //@   at-return [sameBucketIffSimilar C05 uses=sigSimSymmetric+sigSimTransitive needs=membersOKfinal+finalBase] forall i, j :: 0 <= i && i < len(s.Goroutines) && 0 <= j && j < len(s.Goroutines) ==> (owner[i] == owner[j] <==> SimSig(&s.Goroutines[i].Signature, &s.Goroutines[j].Signature, similar))
 //@   at-return [bucketSignatureGeneralisesMembers C12 uses=sigSameTransport needs=membersOKfinal+bucketSigIsKey+bucketsOK+finalBase+permutation+permutationInverse] forall j :: 0 <= j && j < len(s.Goroutines) ==> GenSig(&result.Buckets[bidx[owner[j]]].Signature, &s.Goroutines[j].Signature)
-//@   at-return [matchedKeyIsUnique C06 needs=keysDissimilar+countsOK] true
 //@   at-return [bucketOrderIsTotal C06 needs=totalOrder] DistinctIDs(s) ==> forall i, j :: 0 <= i && i < j && j < len(result.Buckets) ==> BucketLt(result.Buckets[i], result.Buckets[j])
 //@   at-return [firstFlag C04 needs=bucketsOK+finalBase+permutation+permutationInverse] (forall j :: 0 <= j && j < len(s.Goroutines) && s.Goroutines[j].First ==> result.Buckets[bidx[owner[j]]].First) && (forall i :: 0 <= i && i < len(result.Buckets) && result.Buckets[i].First ==> 0 <= fsrc[cof[i]] && fsrc[cof[i]] < len(s.Goroutines) && s.Goroutines[fsrc[cof[i]]].First && bidx[owner[fsrc[cof[i]]]] == i)
 //@   loop 0: invariant -1 <= rangeindex && rangeindex < len(s.Goroutines) && SnapOK(s)
@@ -764,3 +764,19 @@ package stack
 //@ lemma [C12] sigGenReflexive(s *Signature)
 //@   ensures GenSig(s, s)
 //@   uses genReflexive
+
+// ---- context.go: path prefix tests over maps (C06, C18) ------------------------
+//@ pred ProperPrefix(p string, k string) = len(p) > len(k) + 1 && p[:len(k)] == k && p[len(k)] == 47
+//@ pred SrcPrefix(p string, k string) = (len(p) > len(k) + 5 && p[:len(k)] == k && p[len(k):len(k)+5] == "/src/") || (len(p) > len(k) + 9 && p[:len(k)] == k && p[len(k):len(k)+9] == "/pkg/mod/")
+
+//@ func hasPrefix
+//@   option det=true exactly when some key is a proper path prefix of p, whatever the iteration order
+//@   modifies nothing
+//@   ensures [hasPrefixIsExists C06 C18] result <==> exists k string :: dom(s, k) && ProperPrefix(p, k)
+//@   loop 0: invariant forall k string :: visited[k] ==> !ProperPrefix(p, k)
+
+//@ func hasSrcPrefix
+//@   option det=true exactly when p lies under <key>/src/ or <key>/pkg/mod/ for some key, whatever the iteration order
+//@   modifies nothing
+//@   ensures [hasSrcPrefixIsExists C06 C18] result <==> exists k string :: dom(s, k) && SrcPrefix(p, k)
+//@   loop 0: invariant forall k string :: visited[k] ==> !SrcPrefix(p, k)
